@@ -378,6 +378,10 @@ def h_size(ctx, sp):
             ctx.cover('mp-attribute-extended-length')
         if any(code in (O.MP_REACH, O.MP_UNREACH) and len(value) == 256 for flags, code, value in d['attrs']):
             ctx.cover('mp-attribute-256')
+        if any(code == O.MP_REACH and len(value) == 255 for flags, code, value in d['attrs']):
+            ctx.cover('mp-reach-255')          # the last value of the one-octet attribute length
+        if any(code == O.MP_UNREACH and len(value) == 255 for flags, code, value in d['attrs']):
+            ctx.cover('mp-unreach-255')
         # ---- content
         for x in d['announce']:
             d_ann.append((x, i, bool(n6w + n6a)))
@@ -488,6 +492,9 @@ def units(tier):
     add('mp/a15w15-one-nexthop', spec(a6=15, w6=15, fillers=(256,), c6=(128,), nhs=1), base_cover + ('mp-attribute-extended-length',), 10)
     add('mix/a1w1+a2w1', spec(a4=1, w4=1, a6=2, w6=1, fillers=(256,), c4=small4, c6=(16, 128)), mixed, 40)
     add('mp/a15-around-256', spec(a6=15, fillers=(256,), c6=(48, 128), nhs=1), base_cover + ('mp-attribute-extended-length', 'mp-attribute-256'), 40)
+    # an MP attribute of exactly 255 octets (the last one-octet length): 21 + 13 x 17 + 13 (a /96), and 3 + 14 x 17 + 14 (a /104)
+    add('mp/a14-at-255', spec(a6=14, fillers=(256,), c6=(96, 128), nhs=1), base_cover + ('mp-reach-255', 'mp-attribute-extended-length'), 40)
+    add('mp/a1w15-at-255', spec(a6=1, w6=15, fillers=(256,), c6=(104, 128), nhs=1), base_cover + ('mp-unreach-255', 'mp-attribute-extended-length'), 40)
     if not th:
         return us
     add('v4/a4-all-fillers', spec(a4=4, fillers=(5, 250, 254, 255, 256, 257, 300)), base_cover + both, 300)
